@@ -1411,7 +1411,11 @@ def rule_W3(repo: Repo) -> RuleResult:
     for kname in ROLLING_KERNELS[:2]:
         f = nb.func(kname)
         roles, buf, pos, parr, window, loop = _window_roles(f)
-        nn = _non_null_counters(f, roles)
+        # the non-null counter is the per-group array that the emission guard compares with min_periods (W2 identifies it the
+        # other way round - by where it is incremented - so the two rules check each other)
+        nn = {base_name(c.left) for c in ast.walk(loop) if isinstance(c, ast.Compare) and len(c.ops) == 1
+              and isinstance(c.left, ast.Subscript) and base_name(c.left) in roles.per_group_arrays
+              and isinstance(c.comparators[0], ast.Name) and c.comparators[0].id == "min_periods"}
         if len(nn) != 1:
             raise AnalysisError(f"W3: non-null counter of {kname} not identified ({sorted(nn)})")
         nnc = next(iter(nn))
